@@ -438,6 +438,38 @@ func wktGenOut(repo string) string {
 	fmt.Fprintf(&b, "/-- the statements of `parseWKTUnit` around the use of the conversion factor (source text) -/\ndef genUnitFrame : String := %q\n", strings.Join(unitPre, " ;; "))
 	b.WriteString("/-- what `parseWKTUnit` does with the conversion factor once it has been read, translated -/\n")
 	fmt.Fprintf(&b, "def genUnitSet (%s : SR α) (convert : α) : SR α :=\n%s\n\n", g.recv, body)
+	// ---- parseCode.go: the words by which testWKT recognises a WKT text
+	words := "untranslated_no_codeWords"
+	loop := ""
+	pcGo := parse("proj/parseCode.go")
+	for _, d := range pcGo.Decls {
+		fd, ok := d.(*ast.FuncDecl)
+		if !ok || fd.Name.Name != "testWKT" || fd.Body == nil {
+			continue
+		}
+		var rest []string
+		for _, st := range fd.Body.List {
+			if ds, ok := st.(*ast.DeclStmt); ok {
+				if gd, ok := ds.Decl.(*ast.GenDecl); ok && len(gd.Specs) == 1 {
+					vs := gd.Specs[0].(*ast.ValueSpec)
+					if len(vs.Names) == 1 && vs.Names[0].Name == "codeWords" && len(vs.Values) == 1 {
+						if cl, ok := vs.Values[0].(*ast.CompositeLit); ok && g.src(cl.Type) == "[]string" {
+							var ws []string
+							for _, e := range cl.Elts {
+								ws = append(ws, g.src(e))
+							}
+							words = "[" + strings.Join(ws, ", ") + "]"
+							continue
+						}
+					}
+				}
+			}
+			rest = append(rest, g.src(st))
+		}
+		loop = strings.Join(rest, " ;; ")
+	}
+	fmt.Fprintf(&b, "/-- `codeWords` of `testWKT` (parseCode.go) and the rest of its body (source text) -/\ndef genCodeWords : List String := %s\ndef genTestWKTLoop : String := %q\n\n", words, loop)
+
 	// ---- deriveConstants.go: the statements between the table lookups and the datum object
 	g.recv = "json"
 	dcGo := parse("proj/deriveConstants.go")
